@@ -169,6 +169,22 @@ func genC07(c *Ctx) {
 	lay := tvMap("str", [][2]any{{hx("f"), tvUnexp("F", tvInt("int", "9"), tvInt("int", "3"), tvStr("kf"))},
 		{hx("one"), tvUnexp("R1", tvStr("first"), tvInt("int", "1"))}, {hx("two"), tvUnexp("R2", tvInt("int", "7"), tvInt("int", "8"), tvStr("second"))},
 		{hx("mix"), tvSlice(1, tvUnexp("R2", tvInt("int", "70"), tvInt("int", "80"), tvStr("m2")), tvUnexp("R1", tvStr("m1"), tvInt("int", "11")))}})
+	// a key stepped onto lists that are empty, behind pointers, typed, Go arrays of length 0, nil - at a key, at the root, inside a filter
+	for _, ev := range []struct {
+		name string
+		tv   *TV
+	}{{"ptr-empty-any-slice", tvPtr(tvSlice(1))}, {"ptr-empty-typed-slice", tvPtr(tvSlice(0))}, {"ptr-empty-array", tvPtr(tvArray(1))}, {"empty-array", tvArray(1)},
+		{"ptr-ptr-empty-slice", tvPtr(tvPtr(tvSlice(1)))}, {"ptr-nil-slice", tvPtr(&TV{T: "slice", EI: 1, Nil: 1, V: []*TV{}})}, {"ptr-slice-of-nil", tvPtr(tvSlice(1, tvNil()))},
+		{"ptr-slice-of-empty-slices", tvPtr(tvSlice(1, tvSlice(1)))}} {
+		d := tvMap("str", [][2]any{{hx("l"), ev.tv}, {hx("orders"), tvSlice(1, tvMap("str", [][2]any{{hx("items"), ev.tv}}), tvStruct([][3]any{{"Items", 1, ev.tv}}))}})
+		for _, q := range []string{"$.l.name", "$.l.name?.Count()", "$.l.name.first", "$.l.First()", "$.l.Count()", "$.l[@.name.Equal(1)]", "$.orders.items.name", "$.orders[@.items.name.Count().Greater(0)]",
+			"$.orders[@.items.name?.IsNull()]", `$.l.Select("$.name")`, "$.l.name.Sum()", "{$.l.name?.IsNull()}"} {
+			c.Do(Case{Q: q, D: d, Cls: "named-by-property/empty-lists-behind-pointers/" + ev.name, InDomain: true})
+		}
+		for _, q := range []string{"$.name", "$.name?.Count()", "$[@.name.Equal(1)]", "$.First()", "$.Count()"} {
+			c.Do(Case{Q: q, D: ev.tv, Cls: "named-by-property/empty-lists-behind-pointers/" + ev.name + "/root", InDomain: true})
+		}
+	}
 	// keys that name a field of a struct embedded through a (nil) pointer: not keys of the outer struct
 	emb := tvMap("str", [][2]any{{hx("r"), tvUnexp("E0", tvInt("int", "1"))}, {hx("s"), tvUnexp("E", tvStr("ann"), tvInt("int", "2"), tvInt("int", "3"))},
 		{hx("list"), tvSlice(1, tvUnexp("E0", tvInt("int", "1")), tvUnexp("E", tvStr("bob"), tvInt("int", "2"), tvInt("int", "3")), tvUnexp("E0", tvInt("int", "4")))}})
